@@ -531,7 +531,7 @@ pub fn real_rows() -> Vec<Tags> {
 
 pub fn run(tier: Tier) -> i32 {
     let mut run = Run::new("C13", tier, "model_checking");
-    run.rule = "every defs grid over symbols s0..s(n-1) (n = 3 quick, 4 thorough) where is(si) ranges over all subsets of {s0..s(i-1), undefined zz} (all DAGs incl. diamonds and multiple inheritance), crossed with every assignment absent / is[] / is[s_last] / is[zz] to the conjuncts s0-s1, s1-s2, s0-s1-s2 and the 8 combinations of: feature key f:k, a `choice` root, rows without def / with non-Symbol def and non-Symbol `is` entries; for each namespace every query (supertypes_of, all_supertypes_of, subtypes_of, all_subtypes_of, inheritance, choices_for, has_subtype, has/get, conjuncts_defs, fits on all ordered pairs, and Reflection::make over one / two / no defs — not closed under supertypes — .fits on all pairs) on 12+ symbol names incl. undefined ones, and reflect + Reflection::fits + the filter `^sym` on all 243 records (each also carrying `id`, `mod` and `dis` — the same id and mod throughout) over {s0..s3, zz} x {absent, Marker, \"v\"}. Plus ~190 shaped taxonomies that four symbols cannot express (chains of every length 1..40, 64, 100, 300; one def with 2..40, 64, 100 direct supertypes; 1..8 stacked diamonds with an independent branch listed first / last / absent; layered lattices 2-3 wide and 1-6 high; diamonds with arms of lengths 1..6 x 1..6; 2-, 3- and 4-part and overlapping conjuncts over markers that are subtypes of each other and names that are prefixes of one another; a def defined twice / re-parented by a later row, identical rows twice, a supertype listed twice, rows in reverse order): all queries on all symbols, fits on all pairs, reflect on every single-marker record and every subset of a 7-marker core. Plus tests/defs/defs.zinc: all symbols for the unary queries, all ordered pairs for fits (quick: a 300-symbol prefix), reflect on every 1- and 2-tag marker record of a tag core and on the tag set of every conjunct. Oracle: adjacency map built from the `is` lists (answers compared as sets of def names). states = namespaces, transitions = queries".into();
+    run.rule = "every defs grid over symbols s0..s(n-1) (n = 3 quick, 4 thorough) where is(si) ranges over all subsets of {s0..s(i-1), undefined zz} (all DAGs incl. diamonds and multiple inheritance), crossed with every assignment absent / is[] / is[s_last] / is[zz] to the conjuncts s0-s1, s1-s2, s0-s1-s2 and the 8 combinations of: feature key f:k, a `choice` root, rows without def / with non-Symbol def and non-Symbol `is` entries; for each namespace every query (supertypes_of, all_supertypes_of, subtypes_of, all_subtypes_of, inheritance, choices_for, has_subtype, has/get, conjuncts_defs, fits on all ordered pairs, and Reflection::make over one / two / no defs — not closed under supertypes — .fits on all pairs) on 12+ symbol names incl. undefined ones, and reflect + Reflection::fits + the filter `^sym` on all 243 records (each also carrying `id`, `mod` and `dis` — the same id and mod throughout) over {s0..s3, zz} x {absent, Marker, \"v\"}. Plus ~190 shaped taxonomies that four symbols cannot express (chains of every length 1..40, 64, 100, 300; one def with 2..40, 64, 100 direct supertypes; 1..8 stacked diamonds with an independent branch listed first / last / absent; layered lattices 2-3 wide and 1-6 high; diamonds with arms of lengths 1..6 x 1..6; 2-, 3- and 4-part and overlapping conjuncts over markers that are subtypes of each other and names that are prefixes of one another; a def defined twice / re-parented by a later row, identical rows twice, a supertype listed twice, rows in reverse order): all queries on all symbols, fits on all pairs, reflect on every single-marker record and every subset of a 7-marker core. Plus tests/defs/defs.zinc: all symbols for the unary queries, all ordered pairs for fits (quick: a 300-symbol prefix), reflect on every 1- and 2-tag marker record of a tag core and on the tag set of every conjunct. Every small and shaped namespace is asked three times on fresh namespaces: roots-first (everything), deepest-first (inheritance on every symbol, then every unary query; fits on all pairs up to 24 symbols), and fits-first from the six deepest defs then all pairs. Oracle: adjacency map built from the `is` lists (answers compared as sets of def names). states = namespaces, transitions = queries".into();
     run.assume("cyclic `is` graphs are outside the statement and not generated");
     run.assume("answers are compared as sets of def names (the statement does not fix an order)");
     crate::engine::quiet_panics();
